@@ -363,11 +363,14 @@ def _dumps_xml(data, **kwargs):
                 "Z_DOT": "vz",
             }
 
+            # position and velocity, whatever the form the point is expressed in
+            cart = el.copy(form="cartesian")
+
             for k, v in elems.items():
                 x = ET.SubElement(
                     statevector, k, units="km" if "DOT" not in k else "km/s"
                 )
-                x.text = f"{getattr(el, v) / units.km:0.6f}"
+                x.text = f"{getattr(cart, v) / units.km:0.6f}"
 
         for el in data:
             if el.cov is not None:
